@@ -63,6 +63,10 @@ func (p *c13Prop) Gen(r *Rng, i int, tier string) interface{} {
 		}
 		return &c13Case{Kind: "gated", Provider: pr}
 	}
+	if i%8 == 2 {
+		// a connection end whose hand-over to persistence races with fresh traffic (persistence gate)
+		return &c13Case{Kind: "closerace", N: 1 + r.Intn(5), Topics: 1 + r.Intn(3)}
+	}
 	if i%8 == 4 {
 		// a reconnect whose backlog load races with fresh traffic (persistence gate)
 		return &c13Case{Kind: "loadrace", N: 2 + r.Intn(4), Topics: 1 + r.Intn(3), QoS: []int{r.Intn(2)}, SubVer: []int{4, 5}[r.Intn(2)]}
@@ -344,8 +348,11 @@ func (p *c13Prop) runCloseRace(c *c13Case) interface{} {
 	for i := n + 1; i <= n+k; i++ {
 		send(1, i)
 	}
-	ok := routed()
+	// they are routed now: persisted at once, or held until the hand-over is through (then a routing barrier
+	// would wait for the gate as well)
+	time.Sleep(100 * time.Millisecond)
 	gate.Release()
+	ok := routed()
 	if !entered || !ok {
 		obs.Err = "close was not processed / routing barrier"
 		return obs
